@@ -166,6 +166,8 @@ class CondGen:
             if name == 'is_big':
                 return (kind, name, self.obj_term())
             if name == 'lt':
+                if rng.random() < 0.25:
+                    return (kind, name, self.lit_int(), self.int_term())       # the constant argument comes first
                 return (kind, name, self.int_term(), rng.choice([self.int_term(), self.lit_int()]))
             return (kind, name, self.obj_term(), self.obj_term())
         return ('cmp', rng.choice(CMP_OPS), self.int_term(), self.lit_int())
@@ -218,5 +220,8 @@ def gen_case(rng, cfg, cid):
             sel = sel + [term]
             rng.shuffle(sel)
         ent = len(sel) == 1 and rng.random() < 0.5
-    return {'id': cid, 'classes': classes, 'objs': objs, 'vars': vars_, 'quant': cfg.quant,
+    case = {'id': cid, 'classes': classes, 'objs': objs, 'vars': vars_, 'quant': cfg.quant,
             'sel': sel, 'cond': cond, 'entity': ent}
+    if cfg.preds and rng.random() < 0.3:
+        case['pred_kw'] = True          # two-argument predicates are called with their last argument by keyword
+    return case
